@@ -21,7 +21,37 @@ def disc17(sc: dict, tr: dict, clause: str, pos: int) -> str:
 
 
 def run_scenarios(ctx: Ctx, scenarios: list) -> None:
-    traces = trace_run.record_all('props.respfam', 'Recorder', scenarios, 16 if ctx.thorough else 8)
+    # close() from a non-loop thread with a backlog of slow listener callbacks: real threads in real time, recorded while the
+    # virtual-time scenarios run (props/c17sync.py)
+    import threading
+    from props import c17sync
+    sync_scs = [sc for sc in scenarios if sc.get('sync')]
+    scenarios = [sc for sc in scenarios if not sc.get('sync')]
+    sync_traces: list = []
+
+    errs: list = []
+
+    def rec_sync() -> None:
+        for sc in sync_scs:
+            try:
+                sync_traces.append(c17sync.record_in_subprocess(sc['sync']['n'], sc['sync']['cb'], sc['id']))
+            except Exception as ex:  # noqa: BLE001
+                errs.append(ex)
+    th = threading.Thread(target=rec_sync)
+    th.start()
+    traces = trace_run.record_all('props.respfam', 'Recorder', scenarios, 16 if ctx.thorough else 8) if scenarios else []
+    th.join()
+    if errs:
+        from vf.core import Machinery
+        raise Machinery('sync-close recorder: %s' % errs[0])
+    skipped = [sc['id'] for sc, t in zip(sync_scs, sync_traces) if t is None]
+    for sc, t in zip(sync_scs, sync_traces):
+        if t is not None:
+            scenarios = scenarios + [sc]
+            traces = traces + [t]
+    ctx.coverage['sync_close'] = {'histories': len(sync_scs) - len(skipped), 'skipped_no_real_socket': skipped,
+                                  'what': 'Zeroconf.close() from a non-loop thread while the thread-based ServiceBrowser has a backlog of '
+                                          'slow listener callbacks (real threads, real time); nothing may fire after close returned'}
     ctx.log('recorded %d traces, %d events' % (len(traces), sum(len(t['events']) for t in traces)))
     verdicts, states, trans = trace_run.validate('Trace_Responder', traces, {'own': 'C17', 'slack': 5}, batch=250, par=4)
     res = trace_run.triage(ctx, 'C17', scenarios, traces, verdicts, disc17)
@@ -56,12 +86,14 @@ def run_scenarios(ctx: Ctx, scenarios: list) -> None:
                 'samples': [{'scenario': scenarios[0]['id'], 'steps': scenarios[0]['steps'][-10:]}]})
     cov.update(res)
     ctx.assumptions += ['the link does not deliver to closed transports (as no socket would)',
-                        'close() from a non-loop thread (sync wrapper) is not exercised in virtual time (DESIGN.md 10)']
+                        'close() from a non-loop thread is exercised in real time by two directed histories only (props/c17sync.py)']
 
 
 def run(ctx: Ctx) -> None:
     rng = random.Random(ctx.seed * 7919 + 17)
-    run_scenarios(ctx, [rf.gen_c17(rng, 'c17-%d' % k, ctx.thorough) for k in range(ctx.pick(400, 12000))])
+    # (the backlog must outlast any bounded wait a close might be given: 6 callbacks of 2.3 s, thorough also 8 of 2.6 s)
+    sync = [{'id': 'c17-sync-0', 'sync': {'n': 6, 'cb': 2.3}}] + ([{'id': 'c17-sync-1', 'sync': {'n': 8, 'cb': 2.6}}] if ctx.thorough else [])
+    run_scenarios(ctx, [rf.gen_c17(rng, 'c17-%d' % k, ctx.thorough) for k in range(ctx.pick(400, 12000))] + sync)
 
 
 def replay(ctx: Ctx, path: str) -> None:
